@@ -200,6 +200,14 @@ bool Broker::apply_pfaults(PfWhen when, BConn& c, Packet& p, ns_t& delay, bool& 
     return killed;
 }
 
+void Broker::maybe_duplicate(BConn& c, const Packet& a, ns_t delay, int ridx) {
+    if (knobs.dup_ack_p <= 0 || healed) return;
+    auto r = rng_for(c.conn, "dupack", ++emit_counter_);
+    if (!r.chance(knobs.dup_ack_p)) return;
+    int sidx = emit(c, a, delay + r.range(0, 50 * MS), ridx);
+    if (sidx >= 0) { sent[sidx].dup_ack = true; w.count("fault.duplicate_ack"); }
+}
+
 int Broker::emit(BConn& c, Packet p, ns_t delay, int reply_to, int msg, bool hostile, std::string raw_override) {
     SentPkt s;
     s.idx = (int)sent.size(); s.conn = c.conn; s.reply_to = reply_to; s.msg = msg; s.hostile = hostile;
@@ -559,6 +567,7 @@ void Broker::handle(BConn& c, int ridx) {
             if (r.chance(knobs.ack_err_p)) a.rc = err({0x10, 0x80, 0x83, 0x87, 0x90, 0x91, 0x97, 0x99});
             a.props = ack_props(c, PSlot::puback);
             emit(c, a, d, ridx);
+            maybe_duplicate(c, a, d, ridx);
         } else {
             Packet a; a.type = PUBREC; a.pid = p.pid;
             bool dupid = session.inbound_qos2.count(p.pid);
@@ -575,6 +584,7 @@ void Broker::handle(BConn& c, int ridx) {
         if (session.inbound_qos2.erase(p.pid) == 0) a.rc = 0x92;     // Packet Identifier not found
         a.props = ack_props(c, PSlot::pubcomp);
         emit(c, a, d, ridx);
+        maybe_duplicate(c, a, d, ridx);
         break;
     }
     case SUBSCRIBE: {
@@ -588,6 +598,7 @@ void Broker::handle(BConn& c, int ridx) {
         }
         a.props = ack_props(c, PSlot::suback);
         emit(c, a, d, ridx);
+        maybe_duplicate(c, a, d, ridx);
         break;
     }
     case UNSUBSCRIBE: {
@@ -600,6 +611,7 @@ void Broker::handle(BConn& c, int ridx) {
         }
         a.props = ack_props(c, PSlot::unsuback);
         emit(c, a, d, ridx);
+        maybe_duplicate(c, a, d, ridx);
         break;
     }
     case PINGREQ: {
